@@ -394,12 +394,84 @@ fn run_merge(op: &str, t: &[&str], o: &mut Oracle) -> String {
     }
 }
 
+/// result text of the kind's parse() on a bare payload (the part of a `p` line after the kind name)
+fn info_result(k: &str, payload: &[u8], o: &mut Oracle) -> String {
+    let full = |r: Option<ServerInfo>, o: &mut Oracle| match r {
+        None => "none".to_string(),
+        Some(i) => {
+            oracle_info(&i, false, "parse", o);
+            format!("some {}", info_str(&i))
+        }
+    };
+    let part = |r: Option<PartialServerInfo>, o: &mut Oracle| match r {
+        None => "none".to_string(),
+        Some(p) => {
+            let mut q = p.clone();
+            let gi = q.get_info();
+            if let Some(i) = gi {
+                oracle_info(i, true, "parse+get_info", o);
+            }
+            format!("part {} {}", p.token(), gi_str(gi))
+        }
+    };
+    match k {
+        "5" => full(sb::Info5Response(payload).parse(), o),
+        "6" => full(sb::Info6Response(payload).parse(), o),
+        "p" => full(sb::Info6DdperResponse(payload).parse(), o),
+        "7" => full(sb::Info7Response(sb::Token7([0; 4]), sb::Token7([0; 4]), payload).parse(), o),
+        "d" => part(sb::Info664Response(payload).parse(), o),
+        "x" => part(sb::Info6ExResponse(payload).parse(), o),
+        "m" => part(sb::Info6ExMoreResponse(payload).parse(), o),
+        _ => panic!("bad kind"),
+    }
+}
+
+fn run_sweep(t: &[&str], o: &mut Oracle) -> String {
+    let k = t[0];
+    let pre = parse_hex(t[1]).expect("hex");
+    let suf = parse_hex(t[2]).expect("hex");
+    let alpha = parse_hex(t[3]).expect("hex");
+    let maxlen: u32 = t[4].parse().expect("maxlen");
+    let n = alpha.len() as u64;
+    let r = catch(|| {
+        let mut h = FNV_OFFSET;
+        let mut cnt = 0u64;
+        let mut buf: Vec<u8> = Vec::with_capacity(pre.len() + suf.len() + maxlen as usize);
+        for len in 0..=maxlen {
+            for c in 0..n.pow(len) {
+                buf.clear();
+                buf.extend_from_slice(&pre);
+                for j in 0..len {
+                    buf.push(alpha[((c / n.pow(len - 1 - j)) % n) as usize]);
+                }
+                buf.extend_from_slice(&suf);
+                let s = info_result(k, &buf, o);
+                h = fnv_bytes(h, s.as_bytes());
+                h = fnv_byte(h, 10);
+                cnt += 1;
+            }
+        }
+        (h, cnt)
+    });
+    match r {
+        Ok((h, cnt)) => {
+            o.add("payloads_swept", cnt);
+            format!("h {}", h)
+        }
+        Err(msg) => {
+            o.fail("C18/parse-panic", format!("{} request=hs {}", msg, t.join(" ")));
+            "panic".to_string()
+        }
+    }
+}
+
 struct R;
 
 impl Runner for R {
     fn run(&mut self, t: &[&str], o: &mut Oracle) -> String {
         match t {
             ["p", h] => run_parse(&parse_hex(h).expect("hex"), o),
+            ["hs", rest @ ..] if rest.len() == 5 => run_sweep(rest, o),
             [op @ ("m" | "mf" | "mh" | "mfh"), rest @ ..] if !rest.is_empty() => run_merge(op, rest, o),
             _ => "bad-op".to_string(),
         }
@@ -996,6 +1068,40 @@ impl Domain for D {
             emit_p(w, &h, &flat);
         }
 
+        // ---- exhaustive small sub-domains in hash form
+        // decimal reader: every string over the alphabet as packet number / offset / token
+        let int_alpha = b"0123456789+-\x00 a\xff";
+        let int_len = if thorough { 5 } else { 3 };
+        // iex+: token "7", then the swept packet number (the alphabet contains NUL, so the swept
+        // string also produces the following fields), then extra + one client
+        writeln!(w, "hs m {} {} {} {}", to_hex(b"7\0"), to_hex(b"\0\0c\0\00\01\01\0\0"), to_hex(int_alpha), int_len).unwrap();
+        // dtsf: the offset field, two clients behind it
+        let dtsf_pre = b"7\0v\0n\0m\0g\00\02\064\02\064\0";
+        let dtsf_suf = b"\0a\0\00\01\01\0b\0\00\02\01\0";
+        writeln!(w, "hs d {} {} {} {}", to_hex(dtsf_pre), to_hex(dtsf_suf), to_hex(int_alpha), int_len).unwrap();
+        // the token of a 0.6 info
+        writeln!(w, "hs 6 - {} {} {}", to_hex(b"\0v\0n\0m\0g\00\00\00\00\00\0"), to_hex(int_alpha), int_len).unwrap();
+        // varint reader: every byte string as the token of a 0.7 info
+        let all: Vec<u8> = (0..=255u8).collect();
+        writeln!(w, "hs 7 - {} {} {}", to_hex(b"v\0n\0h\0m\0g\0\x00\x00\x00\x00\x00\x00"), to_hex(&all), 2).unwrap();
+        if thorough {
+            let some: Vec<u8> = vec![0x00, 0x01, 0x3f, 0x40, 0x7f, 0x80, 0x81, 0x8f, 0x90, 0xbf, 0xc0, 0xfe, 0xff];
+            writeln!(w, "hs 7 - {} {} {}", to_hex(b"v\0n\0h\0m\0g\0\x00\x00\x00\x00\x00\x00"), to_hex(&some), 5).unwrap();
+        }
+        // from_utf8 + truncated_arraystring: every 1- and 2-byte string as a client name / clan,
+        // and strings over the UTF-8 class boundaries up to length 4 (5 in the thorough tier)
+        let name_pre = b"7\0v\0n\0m\0g\00\01\01\01\01\0";
+        writeln!(w, "hs 6 {} {} {} {}", to_hex(name_pre), to_hex(b"\0\00\01\01\0"), to_hex(&all[1..]), 2).unwrap();
+        writeln!(w, "hs 6 {} {} {} {}", to_hex(b"7\0v\0n\0m\0g\00\01\01\01\01\0a\0"), to_hex(b"\00\01\01\0"), to_hex(&all[1..]), 2).unwrap();
+        let utf_alpha: Vec<u8> = vec![0x41, 0x7f, 0x80, 0x8f, 0x90, 0x9f, 0xa0, 0xbf, 0xc0, 0xc1, 0xc2, 0xdf, 0xe0, 0xe1, 0xec, 0xed, 0xee, 0xef, 0xf0, 0xf1, 0xf3, 0xf4, 0xf5, 0xff];
+        writeln!(w, "hs 6 {} {} {} {}", to_hex(name_pre), to_hex(b"\0\00\01\01\0"), to_hex(&utf_alpha), if thorough { 5 } else { 3 }).unwrap();
+        // capacity: 13/14/15 ASCII bytes, then every string over a multi-byte alphabet
+        for fill in [9usize, 13, 14, 15] {
+            let mut pre = name_pre.to_vec();
+            pre.extend(vec![b'x'; fill]);
+            writeln!(w, "hs 6 {} {} {} {}", to_hex(&pre), to_hex(b"\0\00\01\01\0"), to_hex(b"a\xc3\xa9\xe2\x82\xac\xf0\x9f\x98\x80"), if thorough { 6 } else { 4 }).unwrap();
+        }
+
         // =========================== merging ===========================
         // small families: every step sequence up to length parts+1 (all permutations, with and
         // without repetition, all prefixes)
@@ -1101,6 +1207,25 @@ impl Domain for D {
             let steps: Vec<String> = (0..nsteps)
                 .map(|_| if rng.chance(1, 8) { "t".to_string() } else { rng.below(nparts as u64).to_string() })
                 .collect();
+            writeln!(w, "m {} {} {}", nparts, parts.join(" "), steps.join(" ")).unwrap();
+        }
+        // legacy parts of one header with overlapping / nested / adjacent slot ranges: exercises the
+        // "already have" and the overlap test of merge
+        for _ in 0..(if thorough { 3000 } else { 300 }) {
+            let nparts = 2 + rng.below(3) as usize;
+            let announced = rng.below(9) as i32;
+            let mut g = gen_info(&mut rng, K::I664, announced);
+            g.max_clients = g.max_clients.min(64);
+            g.max_players = g.max_players.min(g.max_clients);
+            let mut parts: Vec<String> = vec![];
+            for _ in 0..nparts {
+                let nc = rng.below(5) as usize;
+                let off = if rng.chance(1, 6) { 60 + rng.below(5) as i32 } else { rng.below(7) as i32 };
+                let clients: Vec<GClient> = (0..nc).map(|u| gen_client(&mut rng, off as usize + u, K::I664)).collect();
+                parts.push(part_tok(K::I664, &flatten(&fields(K::I664, &g, off, 0, &clients))));
+            }
+            let nsteps = 2 + rng.below(5) as usize;
+            let steps: Vec<String> = (0..nsteps).map(|_| rng.below(nparts as u64).to_string()).collect();
             writeln!(w, "m {} {} {}", nparts, parts.join(" "), steps.join(" ")).unwrap();
         }
         // a lone `iex+` packet without clients (with and without the main packet)
